@@ -177,14 +177,21 @@ std::string vf_run(const Case &c, vf::Ctx &ctx) {
   std::vector<rtosc::Port> pv;
   pv.push_back(rtosc::Port{"zz_decoy::i", "", nullptr, [](const char *, rtosc::RtData &) {}});
   pv.push_back(rtosc::Port{pname.c_str(), mb.get(), nullptr, kind_cb(c.kind)});
-  pt::DynPorts ports(pv);
+  pt::DynPorts inner(pv);
+  // every second configuration nests the table below a sub-tree port, so that the port's full address has two levels
+  bool nested = (c.stem.size() + c.ops.size()) % 2 == 1;
+  std::vector<rtosc::Port> ov;
+  ov.push_back(rtosc::Port{"grp/", "", &inner, [&inner](const char *m, rtosc::RtData &d) { while (*m && *m != '/') ++m; if (*m) ++m; inner.dispatch(m, d); }});
+  pt::DynPorts outer(ov);
+  rtosc::Ports &ports = nested ? (rtosc::Ports &)outer : (rtosc::Ports &)inner;
+  const std::string prefix = nested ? "/grp/" : "/";
 
   Obj obj, model;
   bool nontriv = false;
   std::string D = " | " + c.describe();
   for (size_t oi = 0; oi < c.ops.size(); oi++) {
     const Op &op = c.ops[oi];
-    std::string addr = "/" + c.stem + (is_array(c.kind) ? std::to_string(op.idx) : "");
+    std::string addr = prefix + c.stem + (is_array(c.kind) ? std::to_string(op.idx) : "");
     std::string tags;
     std::vector<refosc::Val> vals;
     if (!op.query) {
@@ -323,6 +330,7 @@ std::string vf_run(const Case &c, vf::Ctx &ctx) {
     }
   }
   ctx.count(std::string("kind.") + KNAME[c.kind]);
+  if (nested) ctx.count("class.nested_address");
   if (c.stem.find_first_of("0123456789") != std::string::npos && is_array(c.kind)) ctx.count("class.array_stem_with_digit");
   if (nontriv) ctx.nontriv(vf::fnv(c.describe()));
   return "";
